@@ -419,6 +419,12 @@ func (s *Subscriber) SyncAdChain(ctx context.Context, peerInfo peer.AddrInfo, op
 
 	hnd := s.getOrCreateHandler(peerInfo.ID)
 
+	// Wait for any other ad chain sync of this publisher, so that the latest
+	// sync read below is still the latest when this sync runs. Otherwise ads
+	// synced in the meantime are synced and reported again.
+	hnd.asyncMutex.Lock()
+	defer hnd.asyncMutex.Unlock()
+
 	syncer, updatePeerstore, err := hnd.makeSyncer(peerInfo, true)
 	if err != nil {
 		return cid.Undef, err
